@@ -255,10 +255,12 @@ def make_spline_evaluator(fl, rng, sizes=(5, 4, 4)):
     lo, hi = _bounds(fl)
     ind_sets, grids, coeffs, scale = [], [], [], []
     terms = [[0], [n1 - 1]]
+    # multi-dimensional terms list their feature columns in NON-ascending order (axis k of the coefficient array belongs
+    # to the k-th listed column; the axes have different sizes, so any reordering of an index set changes the function)
     if n1 >= 2:
-        terms.append([0, 1])
+        terms.append([1, 0])
     if n1 >= 3:
-        terms.append([0, 1, 2])
+        terms.append([2, 0, 1])
     for t in terms:
         g = [(float(lo[i]) - 0.05, float(hi[i]) + 0.05, sizes[k]) for k, i in enumerate(t)]
         shape = [sizes[k] + 2 for k in range(len(t))]
